@@ -351,8 +351,89 @@ def run(ck, only=None):
         strings(ck, hp, res)
     if not only or only.get("part") in ("enums", "vars"):
         enums_and_vars(ck, only)
+        env_arguments(ck, only)
     ck.assume("C values and types come from clang constant folding of the same header; expressions clang diagnoses (overflow, bad shift, "
               "division by zero, out-of-range) are excluded from value comparison; float macros are checked for omission/presence only")
+
+
+ENV_H = """#ifndef SHIFT
+#define SHIFT 2
+#endif
+#ifdef WIDE
+typedef long long rec_t;
+#else
+typedef char rec_t;
+#endif
+struct record { rec_t a[3]; };
+#define RECORD_BYTES ((int)sizeof(struct record) << SHIFT)
+#define SHIFT_IS_BIG (SHIFT > 3)
+#define SLOTS (1 << SHIFT)
+#define PLAIN_SHIFT SHIFT
+#define SIZE_ONLY ((int)sizeof(struct record))
+"""
+ENV_NAMES = ["RECORD_BYTES", "SHIFT_IS_BIG", "SLOTS", "PLAIN_SHIFT", "SIZE_ONLY", "SHIFT"]
+
+
+def env_arguments(ck, only=None):
+    """Macro values depend on the clang arguments, and those can arrive three ways: after `--`, through BINDGEN_EXTRA_CLANG_ARGS,
+    through the target-specific variable. Every route must give every evaluator (cexpr, clang's evaluator, the clang macro
+    fallback with its precompiled header) the same arguments: emitted values equal clang's folding under those arguments."""
+    wd = os.path.join(ck.wd, "envargs")
+    os.makedirs(wd, exist_ok=True)
+    hp = os.path.join(wd, "envargs.h")
+    open(hp, "w").write(ENV_H)
+    argsets = [[], ["-DSHIFT=4"], ["-DSHIFT=4", "-DWIDE"], ["-DWIDE"]]
+    routes = ["cli", "env", "env-target", "split"]
+    jobs, want = {}, {}
+    for ai, extra in enumerate(argsets):
+        fp = os.path.join(wd, f"fold{ai}.c")
+        open(fp, "w").write(f'#include "envargs.h"\n' + "\n".join(f"const long long v_{n} = (long long)({n});" for n in ENV_NAMES) + "\n")
+        rc, out, err = common.clang(["-S", "-emit-llvm", "-O0", "-w", "-o", "-", fp] + extra, cwd=wd)
+        common.guard(rc == 0, "C05 env part: clang cannot fold: " + err[:300])
+        want[ai] = {m.group(1): int(m.group(2)) for m in re.finditer(r"@v_(\w+) = .*?constant i64 (-?\d+)", out)}
+        for route in routes:
+            if not extra and route != "cli":
+                continue
+            for fb in (False, True):
+                env = {}
+                cl = []
+                if route == "cli":
+                    cl = ["--"] + extra if extra else []
+                elif route == "env":
+                    env["BINDGEN_EXTRA_CLANG_ARGS"] = " ".join(extra)
+                elif route == "env-target":
+                    env["TARGET"] = "x86_64-unknown-linux-gnu"
+                    env["BINDGEN_EXTRA_CLANG_ARGS_x86_64_unknown_linux_gnu"] = " ".join(extra)
+                else:
+                    env["BINDGEN_EXTRA_CLANG_ARGS"] = " ".join(extra[:1])
+                    cl = ["--"] + extra[1:] if extra[1:] else []
+                jid = f"{ai}|{route}|{int(fb)}"
+                jobs.setdefault(tuple(sorted(env.items())), []).append(
+                    {"id": jid, "args": [hp, "--formatter", "none", "--no-layout-tests"] + (["--clang-macro-fallback", "--clang-macro-fallback-build-dir", wd] if fb else []) + cl,
+                     "inventory": True, "text": False, "fresh": True})
+    n = 0
+    for envkey, js in jobs.items():
+        res = common.run_jobs(js, wd, timeout=60, env=dict(common.ENV, **dict(envkey)))
+        for j in js:
+            r = res[j["id"]]
+            ai, route, fb = j["id"].split("|")
+            ck.count()
+            n += 1
+            ck.nontriv(("envargs", j["id"]))
+            det = {"part": "envargs", "job": j["id"]}
+            if r["status"] != "ok":
+                ck.violation(f"env-arguments args={argsets[int(ai)]} route={route} fallback={fb} generation-failed", dict(det, why=str(r)[:200]))
+                continue
+            consts = rust_consts(r["inventory"])
+            bad = []
+            for name, (ty, expr) in consts.items():
+                if name in want[int(ai)] and parse_int(expr) is not None and parse_int(expr) != want[int(ai)][name]:
+                    bad.append(f"{name} = {expr} (clang with {argsets[int(ai)]}: {want[int(ai)][name]})")
+            if bad:
+                ck.violation(f"env-arguments args={argsets[int(ai)]} route={route} fallback={fb}", dict(det, why="; ".join(bad)[:500]))
+            if fb == "1" and "RECORD_BYTES" not in consts:
+                ck.extra["env_fallback_macros_omitted"] = ck.extra.get("env_fallback_macros_omitted", 0) + 1
+    ck.extra["env_argument_runs"] = n
 
 
 def strings(ck, hp, res):
